@@ -36,9 +36,9 @@ extern "C" __attribute__((used)) const char *__tsan_default_options() { return "
 
 // per-run watchdog: a run that does not return within RUN_WATCHDOG_S seconds of real time is a hang; the handler prints the stack (so the
 // looping function is named in the signature) and exits with a distinctive status
-extern "C" void __sanitizer_print_stack_trace(void);
+extern "C" void __sanitizer_print_stack_trace(void) __attribute__((weak));
 static const unsigned RUN_WATCHDOG_S = 30;
-static void on_watchdog(int) { static const char m[] = "VSIM-HANG: run exceeded the watchdog\n"; (void) !write(2, m, sizeof m - 1); __sanitizer_print_stack_trace(); _exit(79); }
+static void on_watchdog(int) { static const char m[] = "VSIM-HANG: run exceeded the watchdog\n"; (void) !write(2, m, sizeof m - 1); if (__sanitizer_print_stack_trace) { __sanitizer_print_stack_trace(); } _exit(79); }
 static void watchdog_arm(unsigned s) { signal(SIGALRM, on_watchdog); alarm(s); }
 
 #if defined(VSIM_VARIANT_TSAN)
